@@ -357,6 +357,29 @@ def check_case(ctx, r, n_conv=2):
             if not os.path.isfile(os.path.join(src, s["src"])):
                 ctx.violation("jsx-react-file-missing", "%s script %s does not exist in the package" % (lib, s["src"]), wit)
                 return False
+    # what a caller does to one result (e.g. pointing react at another build) does not show up in the next conversion
+    pristine = {lib: fp(deps[names.index(lib)]) for lib in ("react", "react-dom")}
+    for lib in ("react", "react-dom"):
+        d_ = deps[names.index(lib)]
+        d_.script[0]["src"] = "CHANGED-BY-CALLER.js"
+        d_.source = {"href": "https://cdn.example/" + lib}
+    t_next = comp.tagify()
+    for lib in ("react", "react-dom"):
+        nd = [c for c in t_next.children if isinstance(c, ht.HTMLDependency) and c.name == lib]
+        if len(nd) != 1 or fp(nd[0]) != pristine[lib]:
+            ctx.violation("jsx-result-shares-state", "changing the %s dependency of one conversion result shows up in the next conversion" % lib, wit)
+            return False
+    # str() of the component is str() of its conversion, also when dependencies are serialised (JSON render mode)
+    import htmltools as _h
+    old_mode = _h.html_dependency_render_mode
+    _h.html_dependency_render_mode = "json"
+    try:
+        s_comp, s_tag = str(comp), str(comp.tagify())
+    finally:
+        _h.html_dependency_render_mode = old_mode
+    if s_comp != s_tag:
+        ctx.violation("jsx-str-differs-from-tagify", "in JSON dependency mode str(component) differs from str(component.tagify())", wit)
+        return False
     got_meta = sorted([n for n in names if n not in ("react", "react-dom")] + ["<meta>"] * len(metas))
     want_meta = sorted(metadata_of(r, []))
     ctx.count("oracle.metadata")
